@@ -48,9 +48,11 @@ def new_context(extra=None):
 
 
 COUNTERS = {'v': ('v = v + 1', 'v'), 'w': ('w.append(1)', 'len(w)'),
-            'n': ('n[0].append(1)', 'len(n[0])'), 'o': ('o.k = o.k + 1', 'o.k')}
+            'n': ('n[0].append(1)', 'len(n[0])'), 'o': ('o.k = o.k + 1', 'o.k'),
+            # 'vm': as 'v', but conditions read __old__ as the read-only mapping it is
+            'vm': ('v = v + 1', 'v')}
 OLD_EXPR = {'v': '__old__.v', 'w': 'len(__old__.w)', 'n': 'len(__old__.n[0])',
-            'o': '__old__.o.k'}
+            'o': '__old__.o.k', 'vm': "(__old__['v'] + 0 * len(dict(__old__)))"}
 
 
 def _sends(lst, val='v'):
